@@ -28,35 +28,36 @@ Ltac alt_op m :=
   end.
 
 (* validateIndexExists returns (err, ok) with err = not ok *)
+Opaque Generated64.CalculateArithmeticShift.
 Lemma gen64_validateIndexExists_validatem : forall i z neg,
   Generated64.validateIndexExists i z neg = I64.bind (AltKey.validatem i z neg) (fun ok => I64.ret (negb ok, ok)).
 Proof.
-  intros. unfold Generated64.validateIndexExists, validatem. to_i64.
+  intros. repeat autounfold with sidgen64. unfold validatem, or64, and64. to_i64.
   mrun ltac:(rewrite ?gen64_CalculateArithmeticShift_shiftm) alt_op; mfin.
 Qed.
 
-Opaque AltKey.shiftm AltKey.validatem.
+Opaque AltKey.shiftm AltKey.validatem Generated64.validateIndexExists.
 Ltac alt_rw := rewrite ?gen64_CalculateArithmeticShift_shiftm, ?gen64_validateIndexExists_validatem.
 
 Lemma gen64_convertZToMinAltitudekey_z2minkey64m : forall f z out E O,
   Generated64.convertZToMinAltitudekey f z out E O = I64.bind (AltKey.z2minkey64m f z out E O) (fun r => I64.ret (enc_z r)).
 Proof.
-  intros. unfold Generated64.convertZToMinAltitudekey, z2minkey64m, Generated64.ZOriginValue, zorigin, enc_z. to_i64.
+  intros. repeat autounfold with sidgen64. unfold z2minkey64m, zorigin, enc_z, or64, and64. to_i64.
   mrun alt_rw alt_op; mfin.
 Qed.
 Lemma gen64_ConvertZToMinMaxAltitudekey_z2key64m : forall f z out E O,
   Generated64.ConvertZToMinMaxAltitudekey f z out E O = I64.bind (AltKey.z2key64m f z out E O) (fun r => I64.ret (enc_zz r)).
 Proof.
-  intros. unfold Generated64.ConvertZToMinMaxAltitudekey, z2key64m, Generated64.ZOriginValue, zorigin, enc_zz, zoom_ok, Generated64.CheckZoom, or64. to_i64.
+  intros. repeat autounfold with sidgen64. unfold z2key64m, zorigin, enc_zz, zoom_ok, or64, and64. to_i64.
   mrun alt_rw alt_op; mfin.
 Qed.
 Lemma gen64_ConvertAltitudekeyToMinMaxZ_key2z64m : forall k kz out E O,
   Generated64.ConvertAltitudekeyToMinMaxZ k kz out E O = I64.bind (AltKey.key2z64m k kz out E O) (fun r => I64.ret (enc_zz r)).
 Proof.
-  intros. unfold Generated64.ConvertAltitudekeyToMinMaxZ, key2z64m, Generated64.ZOriginValue, zorigin, enc_zz, zoom_ok, Generated64.CheckZoom, or64. to_i64.
+  intros. repeat autounfold with sidgen64. unfold key2z64m, zorigin, enc_zz, zoom_ok, or64, and64. to_i64.
   mrun alt_rw alt_op; mfin.
 Qed.
-Transparent AltKey.shiftm AltKey.validatem.
+Transparent AltKey.shiftm AltKey.validatem Generated64.validateIndexExists Generated64.CalculateArithmeticShift.
 
 (* ---- C12's theorems about the hand-written model, stated of the regenerated int64 code ---- *)
 (* the documented domains: nothing wraps, the code returns what the unbounded model returns *)
